@@ -20,9 +20,9 @@ func init() {
 			"distinct_nontrivial counts distinct (history shape, window kind) signatures of histories in which at least one trip is assigned",
 		Cases: func(tier string) int {
 			if tier == "thorough" {
-				return 200000
+				return 200000 + 4*len(c15FeedCounts(tier))
 			}
-			return 20000
+			return 20000 + 4*len(c15FeedCounts(tier))
 		},
 		Run: runC15,
 		Assumptions: []string{
@@ -157,12 +157,28 @@ func fmtTimePtr(t *time.Time) string {
 	return fmt.Sprint(t.Unix())
 }
 
+func c15FeedCounts(tier string) []int {
+	out := []int{127, 128, 129, 255, 256, 257, 999, 1000, 1001, 1023, 1024, 1025, 2000, 2049}
+	if tier == "thorough" {
+		out = append(out, 3000, 4096, 4097, 5000, 10000)
+	}
+	return out
+}
+
 func runC15(c *core.Ctx) {
 	maxFeeds := 10
 	if c.Thorough() {
 		maxFeeds = 16
 	}
-	h := hgen.Gen(c.R, hgen.Opts{MaxFeeds: maxFeeds, MaxTrips: 4, AlwaysAssigned: c.Index%3 == 0, RepeatStops: c.Index%5 == 0})
+	o := hgen.Opts{MaxFeeds: maxFeeds, MaxTrips: 4, AlwaysAssigned: c.Index%3 == 0, RepeatStops: c.Index%5 == 0}
+	long := false
+	if fc := c15FeedCounts(c.Tier); c.Index < 4*len(fc) {
+		// size sweep: long histories (a trip stays unassigned for a long time, vanishes around the threshold, comes back)
+		o = hgen.Opts{MaxFeeds: 1, MaxTrips: 3, AlwaysAssigned: false, ExactFeeds: fc[c.Index/4] + c.Index%4*7}
+		long = true
+		c.Feature("size-sweep:long-history")
+	}
+	h := hgen.Gen(c.R, o)
 	feeds, err := h.Parse()
 	if err != nil {
 		c.Violationf("C15|parse-error", map[string]any{"error": err.Error()}, "ParseRealtime rejected a history feed: %v", err)
@@ -212,8 +228,11 @@ func runC15(c *core.Ctx) {
 		c.Feature("window:" + w.kind)
 		c15Compare(c, feeds, w.from, w.to, w.kind, detail)
 	}
-	// every prefix under the wide window
+	// every prefix under the wide window (long histories: prefixes around the size thresholds only)
 	for n := 1; n < len(feeds); n++ {
+		if long && !(n%1000 <= 2 || n%1000 >= 998 || n%256 <= 1 || n%256 == 255) {
+			continue
+		}
 		c15Compare(c, feeds[:n], wide0, wide1, "prefix", detail)
 	}
 	if c.WantSample() && anyAssigned && len(feeds) >= 4 {
